@@ -45,6 +45,9 @@ type Case struct {
 	IDs   string `json:"ids,omitempty"`
 	Steps []Step `json:"steps,omitempty"`
 	Path  string `json:"path,omitempty"` // explicit request path (set by stepCase)
+	// entry point "direct": how Context.Respond is called without a matched route:
+	// nil-route | empty-route (a MatchedRoute without Operation), optionally "+cached-format"
+	Direct string `json:"direct,omitempty"`
 }
 
 // Step is one request of a sequence: an operation of seqOps, what its handler returns,
@@ -134,13 +137,20 @@ func bestOffers(offers []string, noAccept bool, acc []Range) []int {
 // go-openapi/analysis (map iteration), so every tied offer is allowed.
 func allowedTypes(c *Case, def string) (allowed map[string]bool, offers []string) {
 	offers = typedProduces(c.Produces, def)
+	if c.Via == "notfound" {
+		// Context.NotFound offers the API default type only
+		offers = nil
+		if def != "" {
+			offers = []string{def}
+		}
+	}
 	ties := bestOffers(offers, c.NoAccept, c.Accept)
 	allowed = map[string]bool{}
 	if len(ties) == 0 {
 		return allowed, offers
 	}
 	noRoute := c.Target == "unknown-path" || c.Target == "other-method"
-	if c.Via != "typed" || noRoute {
+	if c.Via == "untyped" || c.Via == "notfound" || noRoute {
 		for _, i := range ties {
 			allowed[mediaPart(offers[i])] = true
 		}
@@ -422,6 +432,11 @@ func judge(e *env, c *Case, o *obs) (class, what, label string) {
 		return "", "", "may/nothing-negotiated"
 	}
 	liveCT := mediaPart(o.w.h.Get("Content-Type"))
+	if c.Via == "direct" && !isResult(c.Outcome) {
+		// a Responder is handed "the producer registered for the media type" of its route;
+		// without a route (or with one that has no producers) the text forces nothing
+		return "", "", "may/responder-without-route"
+	}
 
 	switch c.Outcome {
 	case "responder", "responder-func":
@@ -490,7 +505,8 @@ func judge(e *env, c *Case, o *obs) (class, what, label string) {
 		panic("judge: unknown outcome " + c.Outcome)
 	}
 	codes := successCodes(c.Responses)
-	if len(codes) == 0 {
+	anyStatus := c.Via == "direct" // no operation, so no declared success status: the status is MAY
+	if len(codes) == 0 && !anyStatus {
 		// only a default response is declared: there is no declared success status
 		return "", "", "may/default-only"
 	}
@@ -505,7 +521,7 @@ func judge(e *env, c *Case, o *obs) (class, what, label string) {
 	if !allowed[m] {
 		return fail("wrong-content-type", "Content-Type = the negotiated media type")
 	}
-	if !codes[o.w.status] {
+	if !anyStatus && !codes[o.w.status] {
 		return fail("wrong-status", fmt.Sprintf("the declared success status %v", c.Responses))
 	}
 	if len(o.errCalls) > 0 {
